@@ -22,7 +22,7 @@ MAP = [
     ('Box-Cox', 'C17'), ('piecewise_function', 'C17'), ('piecewise_as_variable', 'C17'), ('piecewise_variables', 'C17'),
     ('normalpdf and uniformpdf', 'C17'),
     ('MDCEV', 'C18'),
-    ('sampled cross-nested logit', 'C19'),
+    ('sampled cross-nested logit', 'C19'), ('lists an alternative twice', 'C19'),
     ('@deprecated called', 'C20'), ('descriptionOfNativeDraws', 'C20'), ('logcnl_avail', 'C20'),
 ]
 log = subprocess.run(['git', '-C', '/repo', 'log', '--format=%h %s', '7e16da8..HEAD'], capture_output=True, text=True).stdout.splitlines()
